@@ -14,8 +14,8 @@ from harness import stmt_wire as SW
 
 META = {
     "id": "C06",
-    "technique": "Coq proof (escape = _escape_string_literal round-trips through a model of the g++ string-literal lexer for every string without a line end, refuted with a raw line end; the emitter's stitching order is sorted by section kind with one setup and one loop, declared-before-use of file-scope names holds under an explicit guard and is refuted for a function that mentions an ultrasonic helper or a later function; every assignment in the IR of the statement translator targets a variable visible under C++ block scoping, by induction over the translation incl. promotion and both rewriters, refuted for a setup-local introduced by a mixed tuple assignment) + extracted-model correspondence with the real _escape_string_literal / _to_c_expr, with g++'s own lexer, with the section structure read back from the real emitted text, and of the scoping verdict with g++ + the compiler as property oracle: every accepted generated script inside the guard is compiled and linked with g++ against the mock core, every generated printable literal is printed by the firmware and compared with the Python value",
-    "level_text": "Theorems C06_* (coq/Props/C06.v) hold for all strings / all sketches / all programs of Gallina models (coq/Lang/Escape.v: escape and a lexer of one ordinary C++ string literal incl. line splicing; coq/Lang/Sections.v: the emitter's stitching order with defines/uses per top-level item; coq/Lang/Scope.v: C++ block scoping over the IR of coq/Lang/Transl.v, the model of the statement translator that unit C01_stmt ties to parser.py). The models are run against the real functions and against g++ on generated inputs; the C++ type checker is not modelled - g++ itself decides, on every accepted script of a structured generator (devices x helpers x lists x functions x control flow x printable literals) restricted to the guard of the listed findings.",
+    "technique": "Coq proof (escape = _escape_string_literal round-trips through a model of the g++ string-literal lexer for every string without a line end, refuted with a raw line end; the emitter's stitching order is sorted by section kind with one setup and one loop, declared-before-use of file-scope names holds under an explicit guard and is refuted for a function that mentions an ultrasonic helper or a later function; every assignment in the IR of the statement translator targets a variable visible under C++ block scoping, by induction over the translation incl. promotion and both rewriters, refuted for a setup-local introduced by a mixed tuple assignment; the header stitching includes the headers of every library class it instantiates, for every list of device declarations (Lang/Headers.v); the function-selection loop of parse() emits each (function, signature) once, only existing variants and every variant a recorded call resolves to, and no two definitions share name and C++ parameter list when the labels are those of _cpp_type's table (Lang/FnSelect.v)) + extracted-model correspondence with the real _escape_string_literal / _to_c_expr, with g++'s own lexer, with the section structure read back from the real emitted text, of the scoping verdict with g++, of the include list / library objects with the real text for the device declarations of the real IR, and of the selected function variants with Program.functions for the real specialisation tables + the compiler as property oracle: every accepted generated script inside the guard is compiled and linked with g++ against the mock core, every generated printable literal is printed by the firmware and compared with the Python value",
+    "level_text": "Theorems C06_* (coq/Props/C06.v) hold for all strings / all sketches / all programs of Gallina models (coq/Lang/Escape.v: escape and a lexer of one ordinary C++ string literal incl. line splicing; coq/Lang/Sections.v: the emitter's stitching order with defines/uses per top-level item; coq/Lang/Scope.v: C++ block scoping over the IR of coq/Lang/Transl.v, the model of the statement translator that unit C01_stmt ties to parser.py; coq/Lang/Headers.v: servo/LCD flags, library objects and includes as a fold over the top-level device declarations; coq/Lang/FnSelect.v: the selection loop over variants / recorded call signatures / aliases / primary signature and _cpp_type). The models are run against the real functions and against g++ on generated inputs; the C++ type checker is not modelled - g++ itself decides, on every accepted script of a structured generator (devices x helpers x lists x functions x control flow x printable literals) restricted to the guard of the listed findings.",
     "level_note": "Trusted: Coq kernel, extraction, OCaml driver, g++ 12 -std=gnu++17 and the mock Arduino core as the definition of 'compiles', harness/c06_sections.py (reads top-level items, defined and used names out of the emitted text), harness/c06_gen.py (script generator and the syntactic guard shapes_of). Theorems are about the models; what ties the whole transpiler to the property is the compiler oracle, a search, not a proof.",
     "design_ref": "DESIGN.md section 4 C06",
 }
@@ -375,6 +375,50 @@ EDGE_SCRIPTS = [                      # empty setup(), empty loop(), both, nothi
 ]
 
 
+def boundary_scripts():
+    """smallest scripts of the classes the section on library headers / function selection is about (they come first, so that a
+    failure of one of these classes is reported on a script of a few lines):
+    every non-empty combination of the three library classes in every rotation of the declaration order (one of them with the
+    Servo hoisted from the loop head), and every polymorphic-helper shape of c06_gen with both argument classes at top level"""
+    import itertools
+    imp = ("from Reduino import target\ntarget(\"COM3\")\nfrom Reduino.Actuators import Servo\nfrom Reduino.Displays import LCD\n"
+           "from Reduino.Communication import SerialMonitor\nfrom Reduino.Utils import sleep\n")
+    decl = {"S": 'arm = Servo(9)', "P": 'panel = LCD(rs=12, en=11, d4=5, d5=4, d6=3, d7=2)', "I": 'backpack = LCD(i2c_addr=0x27, cols=20, rows=4)'}
+    use = {"S": 'arm.write(90)', "P": 'panel.write(0, 0, "p")', "I": 'backpack.write(0, 1, "i")'}
+    out = []
+    for r in (1, 2, 3):
+        for combo in itertools.combinations("SPI", r):
+            for rot in range(r):
+                order = combo[rot:] + combo[:rot]
+                pre = [decl[k] for k in order]
+                out.append((imp + "\n".join(pre + [use[k] for k in order if k != "S"]) + "\nwhile True:\n" +
+                            "".join(f"    {use[k]}\n" for k in order if k == "S") + "    sleep(500)\n", {"boundary: library classes " + "".join(order): 1}))
+            if "S" in combo:
+                pre = [decl[k] for k in combo if k != "S"]
+                out.append((imp + "\n".join(pre + [use[k] for k in combo if k != "S"]) + "\nwhile True:\n    " + decl["S"] + "\n    " + use["S"] + "\n    sleep(500)\n",
+                            {"boundary: library classes, Servo hoisted " + "".join(combo): 1}))
+    out.append((imp + decl["P"] + "\nlcd2 = LCD(rs=7, en=8, d4=22, d5=23, d6=24, d7=25, rw=6)\n" + decl["I"] + "\nbp2 = LCD(i2c_addr=0x3F)\narm = Servo(9)\narm2 = Servo(10)\nwhile True:\n    sleep(500)\n",
+                {"boundary: two objects of each library class": 1}))
+    head = imp + "mon = SerialMonitor(9600)\n"
+    tail = "while True:\n    sleep(100)\n"
+    helpers = {
+        "rebind int,float": "def half(x):\n    x = x / 2.0\n    return x\na = half(3)\nb = half(2.5)\n",
+        "rebind float,int": "def half(x):\n    x = x / 2.0\n    return x\na = half(2.5)\nb = half(3)\n",
+        "rebind int,float,int": "def half(x):\n    x = x * 0.5\n    return x\na = half(3)\nb = half(2.5)\nc = half(4)\n",
+        "rebind in loop": "def half(x):\n    x = x / 2.0\n    return x\na = half(3)\n" + "while True:\n    b = half(2.5)\n    mon.write(b)\n    sleep(100)\n",
+        "rebind2": "def mix(a, b):\n    a = a / 4.0\n    return a + b\nu = mix(1, 2)\nv = mix(1.5, 2)\n",
+        "overload int,String": "def twice(x):\n    return x + x\na = twice(3)\nb = twice(\"ab\")\n",
+        "overload String,float": "def twice(x):\n    return x + x\nb = twice(\"ab\")\na = twice(2.5)\n",
+        "via": "def half(x):\n    x = x / 2.0\n    return x\ndef as_int(y: int):\n    return half(y)\ndef as_float(z: float):\n    return half(z)\na = as_int(3)\nb = as_float(2.5)\n",
+        "same signature twice": "def inc(n):\n    n = n + 1\n    return n * 2\na = inc(3)\nb = inc(4)\n",
+        "never called": "def unused(x):\n    return x + 1\ndef unused2(s: str, t: float):\n    return s\n",
+        "called from a function only": "def inner(y):\n    return y * 2\ndef outer(z):\n    return inner(z) + 1\na = outer(4)\n",
+    }
+    for k, body in helpers.items():
+        out.append((head + body + (tail if "while True" not in body else ""), {"boundary: helper " + k: 1}))
+    return out
+
+
 def gen_scripts(rng, n):
     out = []
     kinds = G.ALL_KINDS
@@ -382,8 +426,25 @@ def gen_scripts(rng, n):
         opts = {}
         if k % 4 == 0:          # make sure every device kind and every hoistable kind is forced regularly
             opts["force_kinds"] = [kinds[(k // 4) % len(kinds)]]
+            # where the devices stand before the main loop: first / alternating with the globals / below the functions that drive them
+            opts["layout"] = ["default", "interleave", "fns_before_devices"][(k // 4) % 3]
         if k % 4 == 1:
             opts["force_hoist"] = [G.HOISTABLE[(k // 4) % len(G.HOISTABLE)]]
+        if k % 4 == 2:          # several instances per device kind, kinds interleaved, a hoistable kind both before and in the loop;
+            j = k // 4          # in rotation: both LCD interfaces in one sketch / only I2C / only parallel LCDs / whatever comes
+            opts["multi"] = True
+            opts["p_hoist"] = 0.5
+            if j % 4 == 0:
+                opts["lcd_both"] = True
+            elif j % 4 in (1, 2):
+                opts["force_kinds"] = ["LCD"]
+                opts["lcd_only"] = ["i2c", "parallel"][j % 4 - 1]
+            if j % 2:
+                opts["force_hoist"] = [G.HOISTABLE[(j // 2) % len(G.HOISTABLE)]]
+        if k % 4 == 3:          # helpers with un-annotated parameters called with several argument types
+            j = k // 4
+            opts["poly"] = 1 + j % 2
+            opts["poly_kinds"] = [G.POLY_KINDS[j % len(G.POLY_KINDS)], G.POLY_KINDS[(j * 5 + 3) % len(G.POLY_KINDS)]]
         src, feats = G.gen_script(rng, opts)
         out.append((src, feats))
     return out
@@ -425,11 +486,164 @@ def analyse_sections(ctx, src, r, consts, compiled, dist, expect_guard=True):
     return items, {"wf": m_wf, "guard": m_guard, "undeclared": und}
 
 
+# ------------------------------------------------------------------ G. library headers and function selection
+HDR_CODE = {"Arduino.h": 0, "Servo.h": 1, "LiquidCrystal.h": 2, "Wire.h": 3, "LiquidCrystal_I2C.h": 4}
+HDR_NAME = {v: k for k, v in HDR_CODE.items()}
+CLASS_KIND = {"Servo": 1, "LiquidCrystal": 2, "LiquidCrystal_I2C": 3}
+OWN_HEADER = {1: "Servo.h", 2: "LiquidCrystal.h", 3: "LiquidCrystal_I2C.h"}      # the header that declares the class itself
+OBJ_RE = re.compile(r"^(Servo|LiquidCrystal_I2C|LiquidCrystal)[ \t]+(__servo_|__redu_lcd_)(\w+)[ \t]*[;(]", re.M)
+LBL = {"int": 0, "float": 1, "bool": 2, "String": 3, "void": 4}
+LBL_NAME = {v: k for k, v in LBL.items()}
+
+
+def enc_lbl(label, other):
+    if label in LBL:
+        return LBL[label]
+    if isinstance(label, str) and label.startswith("list[") and label.endswith("]"):
+        return [5, enc_lbl(label[5:-1], other)]
+    return [6, other.setdefault(str(label), len(other))]
+
+
+def dec_lbl(v, other_names):
+    if isinstance(v, int):
+        return LBL_NAME[v]
+    if v[0] == 5:
+        return "list[" + dec_lbl(v[1], other_names) + "]"
+    return other_names.get(v[1], "?")
+
+
+def library_facts(cpp, code, consts):
+    """(include names in text order with positions, library objects (python name, kind, position) in text order) read from the
+    real sketch text; code = the text with literals and comments blanked.  Includes that belong to a helper snippet (<cstring> of
+    the len helper) are not part of the header stitching."""
+    inside = []
+    for key in ("LCD", "LIST", "LEN"):
+        k = cpp.find(consts[key])
+        if k >= 0:
+            inside.append((k, k + len(consts[key])))
+    incs = [(m.group(1), m.start()) for m in re.finditer(r"^#[ \t]*include[ \t]*<([^>]+)>", code, re.M)
+            if not any(a <= m.start() < b for a, b in inside)]
+    objs = [(m.group(3), CLASS_KIND[m.group(1)], m.start()) for m in OBJ_RE.finditer(code)]
+    return incs, objs
+
+
+def fn_headers(items):
+    """(name, tuple of C++ parameter types) of every user function definition found in the emitted text"""
+    out = []
+    for it in items or []:
+        if it["kind"] != "function":
+            continue
+        head = it["ctext"].split("{")[0]
+        m = re.match(r"\s*[\w<>:,\s\*&]*?\b(\w+)\s*\((.*)\)\s*$", head, re.S)
+        if not m:
+            continue
+        ps = []
+        for prm in [x.strip() for x in m.group(2).split(",") if x.strip()]:
+            ps.append(" ".join(prm.split()[:-1]))
+        out.append((m.group(1), tuple(ps)))
+    return out
+
+
+def check_library_and_functions(ctx, batch, dist, consts):
+    """batch: [(script, transpile result, items read from the text or None)].  Correspondence of Lang/Headers.v and Lang/FnSelect.v
+    with the real parse()/emit(), and the two property clauses evaluated on the real sketch:
+    every instantiated library class has its own header included before the object; no function is defined twice."""
+    n_eval = 0
+    cases, meta = [], []
+    for src, r, items in batch:
+        code = S.strip_code(r["cpp"])
+        incs, objs = library_facts(r["cpp"], code, consts)
+        inc_names = [n for n, _ in incs]
+        # ---- oracle 1: headers (on the text alone)
+        n_eval += 1
+        kinds_here = sorted({k for _, k, _ in objs})
+        dist["library classes in one sketch:" + ("+".join({1: "Servo", 2: "LiquidCrystal", 3: "LiquidCrystal_I2C"}[k] for k in kinds_here) or "none")] += 1
+        if len(objs) > len(kinds_here):
+            dist["sketches with two objects of one library class"] += 1
+        for name, kind, pos in objs:
+            h = OWN_HEADER[kind]
+            where = [p for n, p in incs if n == h]
+            if not where or min(where) > pos:
+                ctx.fail("the sketch instantiates a library class whose header is not included before it",
+                         {"script": src, "object": name, "class": {1: "Servo", 2: "LiquidCrystal", 3: "LiquidCrystal_I2C"}[kind]},
+                         f"#include <{h}> before the object", {"includes": inc_names}, key="missing-header:" + h)
+        # ---- oracle 2: one definition per (name, parameter types)
+        n_eval += 1
+        seen = Counter((n, tuple(ts)) for n, ts in r["fnsel"]["params"])
+        seen_text = Counter(fn_headers(items))
+        for cnt, origin in ((seen, "Program.functions"), (seen_text, "emitted text")):
+            dup = [k for k, c in cnt.items() if c > 1]
+            if dup:
+                n, ts = dup[0]
+                ctx.fail("a user function is defined twice with one parameter list (C++: redefinition)",
+                         {"script": src, "function": n, "parameters": list(ts), "read_from": origin},
+                         "each (name, parameter types) defined once", {f"{a}({', '.join(b)})": c for (a, b), c in cnt.items()},
+                         key="function-defined-twice")
+                break
+        # ---- model cases
+        if not ctx.exe:
+            continue
+        ids = {}
+        idof = lambda nm: ids.setdefault(nm, len(ids) + 1)
+        cases.append([6, [[idof(nm), k] for nm, k in r["decls"]]])
+        meta.append(("hdr", src, r, dict(ids), inc_names, objs))
+        fs = r["fnsel"]["fns"]
+        if fs:
+            other = {}
+            fids = {}
+            fid = lambda nm: fids.setdefault(nm, len(fids) + 1)
+            E = lambda sig: [enc_lbl(l, other) for l in sig]
+            cases.append([7, [[fid(f["name"]), [E(v) for v in f["variants"]], [E(u) for u in f["used"]],
+                               [[E(a), E(c)] for a, c in f["aliases"]], [] if f["primary"] is None else [E(f["primary"])]] for f in fs]])
+            meta.append(("fn", src, r, dict(fids), {v: k for k, v in other.items()}, None))
+            for f in fs:
+                al = {tuple(a): tuple(c) for a, c in f["aliases"]}
+                res = [al.get(tuple(u), tuple(u)) for u in f["used"]]
+                dist[f"fnsel:recorded call signatures per function={min(len(f['used']), 3)}{'+' if len(f['used']) > 3 else ''}"] += 1
+                if len(f["variants"]) > 1:
+                    dist["fnsel:function with several variants"] += 1
+                if f["aliases"]:
+                    dist["fnsel:function with an aliased signature"] += 1
+                if len(set(res)) < len(res):
+                    dist["fnsel:two recorded signatures resolve to ONE variant"] += 1
+                if not f["used"]:
+                    dist["fnsel:function without recorded call (primary variant)"] += 1
+    if not cases:
+        return n_eval
+    outs = ctx.model(cases)
+    for (what, src, r, ids, aux, objs), o in zip(meta, outs):
+        n_eval += 1
+        if o[0] != 0:
+            ctx.disagree(f"model could not decode the {what} case", {"script": src}, o, None)
+            continue
+        if what == "hdr":
+            names = {v: k for k, v in ids.items()}
+            m_incs = [HDR_NAME[c] for c in o[1]]
+            m_objs = [(names.get(n, "?"), k) for n, k in o[2]]
+            if o[3] != 1:
+                ctx.disagree("extracted model contradicts theorem C06_headers_ok (extraction or wire bug)", {"script": src}, 1, o[3])
+            if m_incs != aux:
+                ctx.disagree("library includes: model (Lang/Headers.v on the device declarations of the real IR) vs the emitted text", {"script": src, "declarations": r["decls"]}, m_incs, aux)
+            if m_objs != [(n, k) for n, k, _ in objs]:
+                ctx.disagree("library objects among the globals: model (Lang/Headers.v) vs the emitted text", {"script": src, "declarations": r["decls"]}, m_objs, [(n, k) for n, k, _ in objs])
+            if o[4] != 1:
+                dist["headers:sketch on which the if->elif variant of the model would lose a header"] += 1
+        else:
+            names = {v: k for k, v in ids.items()}
+            m_sel = [[names.get(n, "?"), [dec_lbl(l, aux) for l in sig]] for n, sig in o[1]]
+            real = r["fnsel"]["selected"]
+            if m_sel != real:
+                ctx.disagree("selected function variants: model (Lang/FnSelect.v on the real specialisation tables) vs Program.functions", {"script": src, "tables": r["fnsel"]["fns"]}, m_sel, real)
+            if o[2] != 1:
+                ctx.disagree("model: two selected variants share name and C++ parameter list (outside theorem C06_fn_no_redefinition_partial: unknown label?)", {"script": src, "tables": r["fnsel"]["fns"]}, 1, o[2])
+    return n_eval
+
+
 def part_scripts(ctx, dist, samples):
     rng = ctx.rng
     thorough = ctx.tier == "thorough"
     n = 2000 if thorough else 160
-    scripts = [(x, {"edge script": 1}) for x in EDGE_SCRIPTS] + gen_scripts(rng, n)
+    scripts = [(x, {"edge script": 1}) for x in EDGE_SCRIPTS] + boundary_scripts() + gen_scripts(rng, n)
     feats = Counter()
     inside = []
     for src, f in scripts:
@@ -452,6 +666,7 @@ def part_scripts(ctx, dist, samples):
     n_eval = 0
     distinct = set()
     kinds_seen = Counter()
+    batch = []
     for (src, r), c in zip(acc, comp):
         n_eval += 1
         if not c["compiled"]:
@@ -459,6 +674,7 @@ def part_scripts(ctx, dist, samples):
                      {"script": src, "errors": re.findall(r"error: .*", c["compile_log"])[:5]}, "g++ -std=gnu++17 compiles and links", "g++ error",
                      key=err_key(c["compile_log"]))
         items, m = analyse_sections(ctx, src, r, consts, c, dist)
+        batch.append((src, r, items))
         if items:
             n_eval += 1
             sig = tuple(sorted(Counter(it["kind"] for it in items).items()))
@@ -467,6 +683,7 @@ def part_scripts(ctx, dist, samples):
                 kinds_seen[it["kind"]] += 1
             for h in r["helpers"]:
                 dist["helper:" + h] += 1
+    n_eval += check_library_and_functions(ctx, batch, dist, consts)
     dist["scripts:compiled"] = sum(1 for c in comp if c["compiled"])
     for k, v in kinds_seen.items():
         dist["items:" + k] = v
@@ -624,21 +841,24 @@ def run(ctx: C.Ctx):
         "rule": "A: escape on special strings + all 1/2-character strings over a 12-symbol boundary alphabet + all 3-character strings over 5 symbols + seeded printable strings (ASCII incl. quote/backslash/?, Unicode) + strings with control characters (model vs _escape_string_literal; the real output lexed by the model lexer; the three escape call sites of _to_c_expr). "
                 "B: C++ literal bodies built from plain characters, simple/octal/hex escapes, trigraph-like sequences, line splices, non-ASCII: model lexer vs the bytes g++ stores. "
                 "C: printable strings in 7 script contexts (write, variable, list element, function argument, f-string, concatenation, +=) transpiled, compiled, run; the printed line must be the Python value. "
-                "D: seeded structured scripts (c06_gen.gen_script: device kinds forced in rotation before the loop / hoistable kinds at the top of the loop body, globals, lists, user functions, if/elif/else, for, while, try, tuple assignment, f-strings, device calls with literal and run-time arguments) filtered by the syntactic guard shapes_of; every accepted one is compiled+linked by g++ (oracle) and its top-level structure is read back and compared with the model's stitch order / declared-before-use verdict. "
+                "D: 6 edge scripts + 28 boundary scripts (every combination and declaration order of Servo / parallel LCD / I2C LCD incl. a Servo hoisted from the loop head and two objects per class; every helper shape: parameter re-bound to float called with int and float in both orders, two real overloads, calls through annotated wrappers, one signature twice, never called, called from a function only) + seeded structured scripts (c06_gen.gen_script: device kinds forced in rotation before the loop / hoistable kinds at the top of the loop body; every 4th script with 1-3 instances per device kind in shuffled order, both LCD interfaces / only one of them in rotation, a hoistable kind both before and in the loop; every 4th script with helpers whose un-annotated parameters are called with several argument types (13 shapes in rotation: re-bound parameters, overloads, recursion, list parameter / result, global statement, empty body) at top level, in the loop, in nested blocks and inside other functions; devices first / alternating with globals / below the functions that drive them; pins as literals or global variables; globals, lists, user functions, if/elif/else, for, while, try, tuple assignment, f-strings, device calls with literal and run-time arguments) filtered by the syntactic guard shapes_of; every accepted one is compiled+linked by g++ (oracle) and its top-level structure is read back and compared with the model's stitch order / declared-before-use verdict; on each of them two more property clauses are evaluated on the real artefacts (every instantiated library class has its own header included above the object; no (name, parameter types) is defined twice - in Program.functions and in the text) and Lang/Headers.v / Lang/FnSelect.v are run on the real device declarations / specialisation tables and compared with the real include list, library objects and Program.functions. "
                 "F: statement-fragment programs (harness/progen.py feature sets + 34 scoping boundary templates: all-new / mixed / all-old tuple assignments at every level, names first bound in branches and loops, for variables re-bound after the loop) through the extracted Lang.Transl + Lang.Scope and through the real transpiler + g++: the theorem's conclusion is re-checked on the extracted model, and a target the model finds invisible must make g++ fail with 'not declared'. "
                 "distinct non-trivial = strings that need escaping + distinct (section-kind multiset, helper set) signatures of compiled scripts",
         "samples": samples[:4],
         "distribution": {k: v for k, v in sorted(dist.items(), key=lambda kv: str(kv[0]))},
-        "guard": "strings: str.isprintable() (theorem guard: no LF/CR). scripts: c06_gen.shapes_of(script) is empty - no user function that calls measure_distance() or lcd.animate(), no call of a function defined later, no '**', no 'except <Name>', no '+' of two string literals, no C++ keyword / Arduino core name as a Python identifier, no top-level tuple assignment mixing new and old names, no for variable mentioned after its loop; plus generator invariants: type-correct Python, one type class per variable name, list.append/remove arguments of the element type. Scoping theorem: setup() has no top-level local declaration (for loop()), targets of augmented assignments not checked",
+        "guard": "strings: str.isprintable() (theorem guard: no LF/CR). scripts: c06_gen.shapes_of(script) is empty - no user function that calls measure_distance() or lcd.animate(), no call of a function defined later, no '**', no 'except <Name>', no '+' of two string literals, no C++ keyword / Arduino core name as a Python identifier, no top-level tuple assignment mixing new and old names, no for variable mentioned after its loop, no for over anything but range(...), no un-annotated parameter re-bound to a string-valued expression, no string / float literal passed to an un-annotated parameter outside an assignment or return value, no function above an RGBLed whose on/off/blink/toggle it calls; plus generator invariants: type-correct Python, one type class per variable name, list.append/remove arguments of the element type, a helper with two real overloads has one numeric and one String overload and is called only as the right-hand side of an assignment, a helper whose un-annotated parameter is used as a list is called once in an assignment. Function theorem C06_fn_no_redefinition_partial: all labels in _cpp_type's table. Scoping theorem: setup() has no top-level local declaration (for loop()), targets of augmented assignments not checked",
         "unmodelled": ["the C++ type checker (template deduction in the list helpers, String overloads, implicit conversions): decided by g++ only",
                        "AVR specifics: <cstring> in the len helper, 16-bit int, PROGMEM; the mock is a hosted g++ 12 with the mock core",
                        "universal character names, GNU escapes, numeric escapes > 255, -trigraphs / -std=c++NN modes (the lexer model answers None)",
+                       "Lang/Headers.v covers Servo and LCD declarations at the top level of setup_body / loop_body (the property's quantifier); LCDs declared inside the loop or nested blocks are not modelled",
+                       "Lang/FnSelect.v models the selection loop and _cpp_type, not how _parse_function / _infer_expr_type fill the tables (variants, recorded signatures, aliases are read from the real run); overload resolution at the call sites is g++'s",
                        "scripts rejected by the transpiler (not the property's business); lines silently dropped by the parser (C07)",
                        "which names an item defines/uses is read from the emitted text by harness/c06_sections.py, not by a C++ parser",
                        "scoping theorem: expression reads, redeclaration within one block, the __tmp_assign_k temporaries, user functions, lists and devices are outside Lang/Transl.v; Transl itself is tied to parser.py by unit C01_stmt (IR equality on generated programs), not re-run here"],
         "trusted_base": C.COMMON_TRUSTED + ["g++ 12 -std=gnu++17 -O0 and mock/ (Arduino.h, Servo.h, LiquidCrystal*.h, Wire.h, mock_core.cpp) as the definition of 'compiles against the Arduino core'",
                                             "harness/c06_sections.py (top-level item splitter, defined/used names), harness/c06_gen.py (generator; shapes_of = executable guard)",
-                                            "harness/impl/c06_impl.py (calls _escape_string_literal, _to_c_expr, parse, emit; exports the emitter's snippet constants)"],
+                                            "harness/impl/c06_impl.py (calls _escape_string_literal, _to_c_expr, parse, emit; exports the emitter's snippet constants, the device declarations of the IR, and - through a wrapper around parser._parse_function that keeps a reference to the ctx dict - the specialisation tables parse() selects from)",
+                                            "mock/__MockLcdBase.h: the shared base of the two mock LCD classes lives in its own header, so that LiquidCrystal / LiquidCrystal_I2C are visible only when their own header is included"],
     })
     ctx.assumptions += ["source and execution character set UTF-8; g++ in a gnu++ mode (trigraphs off), as the Arduino cores and PlatformIO build",
                         "generated identifiers are distinct per scope (no local shadows a file-scope name), so 'used' = 'mentioned' in c06_sections"]
